@@ -240,7 +240,9 @@ theorem loadLoop_written (env : Env) : ∀ (f : Nat) (file : Bytes) (a : LoadAcc
       unfold loadRecord at hri
       simp only at hri
       split at hri
-      · split at hri <;> exact ha k r hri
+      · split at hri
+        · simp only [(bumpInvalid_fields a _ _).1] at hri; exact ha k r hri
+        · rw [(bumpInvalid_fields a _ _).1] at hri; exact ha k r hri
       · simp only [AL.get_set] at hri
         split at hri
         · simp only [Option.some.injEq] at hri; subst hri; rfl
